@@ -1,6 +1,7 @@
 (* C06 — Periodicity analysis of plural expressions is sound. *)
 From Coq Require Import ZArith List.
-From I18n Require Import Lib.Outcome Model.IntExpr Proofs.Codomain Proofs.Period.
+From I18n Require Import Lib.Outcome Model.IntExpr Proofs.Codomain Proofs.Period
+  Lib.PySrc Generated.IntExprSrc Proofs.IntExprSrc Proofs.IntExprSrcPe.
 Import ListNotations.
 Local Open Scope Z_scope.
 
@@ -28,6 +29,48 @@ Print Assumptions C06_image_in_window.
 Theorem C06_outcomes_are_values_or_errors : forall M e n c, pyeval M e n <> Crash c.
 Proof. exact pyeval_nocrash. Qed.
 Print Assumptions C06_outcomes_are_values_or_errors.
+
+(* ---- Source tie.  Generated/IntExprSrc.v is the statement-by-statement translation (tools/gen/gen_intexpr_src.py) of the
+   methods of lib/intexpr.py, regenerated from the working tree on every run.  Every translated method of class
+   PeriodEvaluator, run on the nodes the parser builds with self._visit = the model and gcd = Z.gcd (gcd's while loop is
+   not translated), returns what `period` returns. *)
+(* lcm(x, y): `r //= gcd(r, y); r *= y`, ZeroDivisionError exactly when gcd is 0 (dead inside the analysis: periods are >= 1) *)
+Theorem C06_source_tie_lcm : forall x y,
+  src_lcm Z.gcd x [y] = if Z.gcd x y =? 0 then SRaise XZeroDiv else SRet (py_lcm x y).
+Proof. exact src_lcm2_exact. Qed.
+Print Assumptions C06_source_tie_lcm.
+Theorem C06_source_tie_lcm3 : forall t x y, t <> 0 \/ x <> 0 -> y <> 0 ->
+  src_lcm Z.gcd t [x; y] = SRet (py_lcm (py_lcm t x) y).
+Proof. exact src_lcm3_eq. Qed.
+Print Assumptions C06_source_tie_lcm3.
+Theorem C06_source_tie_binop : forall M o a b,
+  src_pe_binop (pe_vis M) node_isinst node_attr_n Z.gcd M (NBin o) (NE a) (NE b) = of_opt (period M (Bin o a b)).
+Proof. exact src_pe_binop_eq. Qed.
+Print Assumptions C06_source_tie_binop.
+Theorem C06_source_tie_compare : forall M o a b,
+  src_pe_compare (pe_vis M) node_isinst node_attr_n Z.gcd M [NE b] [NCmp o] (NE a) = of_opt (period M (Cmp o a b)).
+Proof. exact src_pe_compare_eq. Qed.
+Print Assumptions C06_source_tie_compare.
+Theorem C06_source_tie_boolop : forall M a b,
+  src_pe_boolop (pe_vis M) Z.gcd M [NE a; NE b] = of_opt (period M (And a b)) /\
+  src_pe_boolop (pe_vis M) Z.gcd M [NE a; NE b] = of_opt (period M (Or a b)).
+Proof. exact pe_tie_boolop. Qed.
+Print Assumptions C06_source_tie_boolop.
+Theorem C06_source_tie_ifexp : forall M c a b,
+  src_pe_ifexp (pe_vis M) Z.gcd M (NE c) (NE a) (NE b) = of_opt (period M (If c a b)).
+Proof. exact src_pe_ifexp_eq. Qed.
+Print Assumptions C06_source_tie_ifexp.
+Theorem C06_source_tie_leaves : forall M z a,
+  src_pe_num M z = of_opt (period M (Num z)) /\ src_pe_name = of_opt (period M Var) /\
+  src_pe_unaryop (pe_vis M) (NE a) = of_opt (period M (Not a)).
+Proof. exact pe_tie_leaves. Qed.
+Print Assumptions C06_source_tie_leaves.
+
+(* the untranslated parts (constructors: max = 1 << bits; __call__, the getattr dispatch _visit, _visit_expr; gcd) still have
+   the source text whose digest is recorded in the translator *)
+Theorem C06_source_tie_untranslated_pinned : src_pin_base = true /\ src_pin_pe = true.
+Proof. exact pe_pins. Qed.
+Print Assumptions C06_source_tie_untranslated_pinned.
 
 Definition polish : expr :=
   If (Cmp CEq Var (Num 1)) (Num 0)
